@@ -261,6 +261,9 @@ def with_time(tr, t0=1000.0, dt=10.0):
 
 # --------------------------------------------------------------------------------------------- configs
 FAMILIES = ("simple", "simple_nodes", "distance")
+# the third matcher class of the repository (Newson-Krumm style scores, edge states); used by the structure-level checks
+# (alignment, walk, cut-offs, lattice invariants, totality, log level, determinism, incremental), not by the score oracles
+FAMILIES_ALL = ("simple", "simple_nodes", "distance", "newsonkrumm")
 
 
 def gen_cfg(rng, families=FAMILIES, ne=None, width=False, agb=None, cut=True, unit=1.0):
@@ -279,6 +282,8 @@ def gen_cfg(rng, families=FAMILIES, ne=None, width=False, agb=None, cut=True, un
             cfg["restrained_ne"] = rng.random() < 0.6
     if fam == "distance" and rng.random() < 0.5:
         cfg["dist_noise"] = unit * rng.choice([0.5, 1.0, 3.0])
+    if fam == "newsonkrumm":
+        cfg["beta"] = rng.choice([None, 1 / 6, 1.0, 5.0]) if unit == 1.0 else None
     if width is True:
         cfg["width"] = rng.choice([1, 1, 2, 2, 3, 4])
     elif width == "maybe":
@@ -327,6 +332,11 @@ def add_pre_trace(rng, case, p=0.25):
             j = rng.randrange(1, len(pre))
             pre[j] = [pre[j][0] + 9.0, pre[j][1] - 7.0]
         case["ops"] = [{"op": "pre", "trace": pre, "unique": False}] + case["ops"]
+    if rng.random() < p:
+        # ... and/or ends with a plain match() of another trace (after whatever expansion rounds the history contained):
+        # a fresh plain match must not inherit anything from the rounds before it
+        post = gen_trace(rng, case["map"], k=rng.randint(1, 6), kind=rng.choice(["walk", "walk", "outlier", "sparse"]))
+        case["ops"] = case["ops"] + [{"op": "pre", "trace": post, "unique": False}]
     return case
 
 
@@ -391,3 +401,41 @@ def map_large(rng, n=None, oneway_p=0.2, labels="int"):
 def gen_long_trace(rng, m, k=None, noise=0.15, sparse=1):
     tr = gen_trace(rng, m, k=(k or rng.randint(12, 30)) * sparse, noise=noise, kind="walk")
     return tr[::sparse]
+
+
+def gen_carriageway_case(rng):
+    """Two parallel one-way carriageways A->B and X->Y that are linked (what connect_parallelroads builds), a by-pass S->B
+    that ends in the same node as A->B, and a dense trace that drives R-S-A-B, changes to X-Y and continues to Z.  With a
+    small max_dist the by-pass is no emitting candidate near B, but a non-emitting chain can reach it."""
+    sc = rng.choice([1.0, 1.0, 0.5, 2.0])
+    gap = rng.choice([1.5, 2.0, 2.5]) * sc
+    j = lambda v: v + rng.uniform(-0.1, 0.1) * sc
+    pts = {"R": (-1.2 * sc, 0.0), "S": (0.0, 0.0), "A": (10.0 * sc, 0.0), "B": (10.0 * sc, 10.0 * sc), "D": (10.0 * sc, 20.0 * sc),
+           "X": (10.0 * sc + gap, 0.0), "Y": (10.0 * sc + gap, 10.0 * sc), "Z": (10.0 * sc + gap, 20.0 * sc)}
+    names = list(pts)
+    ids = rng.sample(range(1, 90), len(names))
+    lab = dict(zip(names, ids if rng.random() < 0.6 else ["n%d" % v for v in ids]))
+    und = [("R", "S"), ("S", "A"), ("S", "B"), ("A", "B"), ("B", "D"), ("X", "Y"), ("Y", "Z")]
+    if rng.random() < 0.5:
+        und = [("R", "S"), ("S", "B"), ("S", "A"), ("A", "B"), ("B", "D"), ("X", "Y"), ("Y", "Z")]
+    edges = [[lab[a], lab[b]] for a, b in und]
+    if rng.random() < 0.3:
+        edges.append([lab["D"], lab["B"]])
+    nodes = [[lab[k], [j(v[0]), j(v[1])]] for k, v in pts.items()]
+    if rng.random() < 0.5:
+        rng.shuffle(nodes)
+    linked = [[[lab["A"], lab["B"]], [lab["X"], lab["Y"]]]]
+    if rng.random() < 0.3:
+        linked.append([[lab["X"], lab["Y"]], [lab["A"], lab["B"]]])
+    m = {"nodes": nodes, "edges": edges, "latlon": False, "kind": "carriageway", "linked": linked}
+    tr = [[-1.0 * sc, 0.2 * sc], [rng.choice([4.0, 5.0, 6.0]) * sc, 0.2 * sc], [10.0 * sc + 0.2 * sc, rng.choice([4.0, 5.0, 6.0]) * sc],
+          [10.0 * sc + gap - 0.3 * sc, 8.0 * sc], [10.0 * sc + gap + 0.1 * sc, 12.0 * sc]]
+    if rng.random() < 0.3:
+        tr.append([10.0 * sc + gap, 16.0 * sc])
+    cfg = gen_cfg(rng, families=("simple", "distance"), ne=True, width=False, agb=False, cut=False)
+    cfg["obs_noise"] = sc * rng.choice([1.0, 1.0, 2.0])
+    cfg["obs_noise_ne"] = None
+    cfg["max_dist"] = sc * rng.choice([1.5, 1.5, 2.5])
+    cfg["max_dist_init"] = rng.choice([None, 0.5 * sc, 1.0 * sc])
+    cfg["restrained_ne"] = rng.random() < 0.5
+    return {"map": m, "trace": tr, "cfg": cfg}
